@@ -1,6 +1,6 @@
 /-! M9 (thread machine): the goroutines around one `zapcore.BufferedWriteSyncer` — any number of clients calling
 `Write`, `Sync` and `Stop`, the flush goroutine (`flushLoop`), the ticker — as an interleaving machine over the
-synchronisation objects of zapcore/buffered_write_syncer.go: `s.mu`, `s.stopMu`, the `stop` and `done` channels,
+synchronisation objects of zapcore/buffered_write_syncer.go: `s.mu`, the `stop`, `done` and `flushed` channels,
 the flags `initialized` / `stopped`.  One step = one synchronisation action (lock, unlock together with the
 critical section it ends, channel close / receive).  The buffer itself is abstracted to three ghost counters
 (`acc` = writes accepted, `flushed` = value of `acc` at the last completed flush, `accAtStop` = value of `acc` when
@@ -8,7 +8,8 @@ the shutdown was signalled); the byte-level behaviour inside a critical section 
 
 Two switches select the earlier shapes of `Stop` the theorems are sensitive to:
 * `lockedWait` — wait for `done` while still holding `s.mu` (zap before the fix of issue 1428);
-* `serialStop = false` — no `stopMu`: a concurrent second `Stop` is not held back (zap before the repair of F11). -/
+* `waitFlushed = false` — a `Stop` that finds the syncer already stopped returns at once instead of waiting for the
+  `flushed` channel (zap before the repair of F11). -/
 namespace ZapVerif.BwsConc
 
 /-- where a client goroutine is inside one call -/
@@ -16,12 +17,13 @@ inductive CPc where
   | idle                    -- not in a call
   | wantW | inW             -- Write: `s.mu.Lock()` / the critical section (initialize on first use, buffer, deferred Unlock)
   | wantS | inS             -- Sync: `s.mu.Lock()` / flush + `WS.Sync()` under the lock
-  | wantM                   -- Stop: `s.stopMu.Lock()`
   | wantT | inT             -- Stop: `s.mu.Lock()` / the critical section (`stopped = true; ticker.Stop(); close(s.stop)`)
-  | waitDone                -- Stop: `<-s.done` after `s.mu.Unlock()`
+  | waitFlushed             -- Stop that found `stopped` set: `<-flushed` (after `s.mu.Unlock()`)
+  | waitDone                -- Stop that shuts down: `<-s.done` after `s.mu.Unlock()`
   | inTwait                 -- variant `lockedWait`: `<-s.done` while still holding `s.mu`
-  | wantF | inF             -- Stop: the final `s.Sync()`
-  | relM                    -- Stop: about to return (deferred `s.stopMu.Unlock()`)
+  | wantF | inF             -- … its final `s.Sync()`
+  | closeF                  -- … its deferred `close(s.flushed)`
+  | retT                    -- Stop returns
 deriving DecidableEq, Repr
 
 /-- the flush goroutine -/
@@ -42,18 +44,18 @@ deriving DecidableEq, Repr
 structure Cfg where
   n : Nat                   -- client goroutines 0 … n-1
   lockedWait : Bool := false
-  serialStop : Bool := true
+  waitFlushed : Bool := true
 deriving Repr
 
 structure St where
   cl : Nat → CPc
   loop : LPc := .none_
   mu : Holder := .free
-  smu : Option Nat := none        -- holder of `s.stopMu`
   init : Bool := false            -- `s.initialized`
   stopped : Bool := false         -- `s.stopped`
   stopClosed : Bool := false      -- `s.stop` is closed
-  panicked : Bool := false        -- `close(s.stop)` ran on a closed channel
+  flushedClosed : Bool := false   -- `s.flushed` is closed
+  panicked : Bool := false        -- a `close` ran on a closed channel
   acc : Nat := 0                  -- ghost: number of completed `Write` critical sections
   flushed : Nat := 0              -- ghost: `acc` at the last completed flush
   accAtStop : Nat := 0            -- ghost: `acc` when `stopped` was set
@@ -73,25 +75,25 @@ def cstep (cfg : Cfg) (s : St) (i : Nat) : Option St :=
                   acc := s.acc + 1 }
   | .wantS => if s.mu = .free then some { s with cl := upd s.cl i .inS, mu := .client i } else none
   | .inS => some { s with cl := upd s.cl i .idle, mu := .free, flushed := s.acc }
-  | .wantM =>
-    if cfg.serialStop then
-      if s.smu = none then some { s with cl := upd s.cl i .wantT, smu := some i } else none
-    else some { s with cl := upd s.cl i .wantT }
   | .wantT => if s.mu = .free then some { s with cl := upd s.cl i .inT, mu := .client i } else none
   | .inT =>
-    if !s.init || s.stopped then
-      some { s with cl := upd s.cl i .relM, mu := .free }         -- `return false`; nothing to clean up
+    if !s.init then
+      some { s with cl := upd s.cl i .retT, mu := .free }         -- `return false`; `flushed` stays nil
+    else if s.stopped then                                        -- `flushed = s.flushed; return false`
+      some { s with cl := upd s.cl i (if cfg.waitFlushed then .waitFlushed else .retT), mu := .free }
     else if cfg.lockedWait then
       some { s with cl := upd s.cl i .inTwait, stopped := true, stopClosed := true,
                     panicked := s.panicked || s.stopClosed, accAtStop := s.acc }
     else
       some { s with cl := upd s.cl i .waitDone, mu := .free, stopped := true, stopClosed := true,
                     panicked := s.panicked || s.stopClosed, accAtStop := s.acc }
+  | .waitFlushed => if s.flushedClosed then some { s with cl := upd s.cl i .retT } else none
   | .waitDone => if s.loop = .finished then some { s with cl := upd s.cl i .wantF } else none
   | .inTwait => if s.loop = .finished then some { s with cl := upd s.cl i .wantF, mu := .free } else none
   | .wantF => if s.mu = .free then some { s with cl := upd s.cl i .inF, mu := .client i } else none
-  | .inF => some { s with cl := upd s.cl i .relM, mu := .free, flushed := s.acc }
-  | .relM => some { s with cl := upd s.cl i .idle, smu := if cfg.serialStop then none else s.smu }
+  | .inF => some { s with cl := upd s.cl i .closeF, mu := .free, flushed := s.acc }
+  | .closeF => some { s with cl := upd s.cl i .retT, flushedClosed := true, panicked := s.panicked || s.flushedClosed }
+  | .retT => some { s with cl := upd s.cl i .idle }
 
 /-- the next step of the flush goroutine that needs no tick -/
 def lstep (s : St) : Option St :=
@@ -116,7 +118,7 @@ def start (cfg : Cfg) (s : St) (i : Nat) (pc : CPc) : Option St :=
 def step (cfg : Cfg) (s : St) : Act → Option St
   | .write i => start cfg s i .wantW
   | .sync i => start cfg s i .wantS
-  | .stop i => start cfg s i .wantM
+  | .stop i => start cfg s i .wantT
   | .client i => cstep cfg s i
   | .tick => if s.loop = .select then some { s with loop := .wantS } else none
   | .loop => lstep s
@@ -140,9 +142,9 @@ def inCS : CPc → Bool
   | .inW | .inS | .inT | .inTwait | .inF => true
   | _ => false
 
-/-- holds `s.stopMu` (when `serialStop`) -/
-def holdsM : CPc → Bool
-  | .wantT | .inT | .waitDone | .inTwait | .wantF | .inF | .relM => true
+/-- the `Stop` call that shuts the syncer down, between its critical section and its return -/
+def shutting : CPc → Bool
+  | .waitDone | .inTwait | .wantF | .inF | .closeF => true
   | _ => false
 
 /-- nothing is in flight: every client is idle and the flush goroutine sits in its `select` (or does not exist) -/
